@@ -24,7 +24,19 @@ pub struct LCase {
     pub focus: Option<String>,
     pub status_override: Option<u16>,
     pub extra_headers: Vec<(String, String)>,
+    /// GetObject only: response-* overrides carried by the request, as (input member, value)
+    #[serde(default)]
+    pub overrides: Vec<(String, String)>,
 }
+
+/// the response-* overrides of GetObject: (input member, output member, response header)
+const OVERRIDES: &[(&str, &str, &str)] = &[
+    ("response_cache_control", "cache_control", "cache-control"),
+    ("response_content_disposition", "content_disposition", "content-disposition"),
+    ("response_content_encoding", "content_encoding", "content-encoding"),
+    ("response_content_language", "content_language", "content-language"),
+    ("response_content_type", "content_type", "content-type"),
+];
 
 fn presence_from(name: &str) -> Presence {
     match name {
@@ -67,6 +79,18 @@ pub fn judge_looped(rt: &tokio::runtime::Runtime, r: &mut Report, case: &LCase) 
     let info = op_info(&case.op).expect("op");
     // the request: a minimal input
     let mut gi = gen_for(seed ^ 0x1111, Presence::Minimal);
+    let ov = case.overrides.clone();
+    let rule_in = move |s: &str, f: &str, _t: &str, d: usize| -> FieldRule {
+        if d == 1 && s == "GetObjectInput" {
+            if let Some((_, v)) = ov.iter().find(|(m, _)| m == f) {
+                return FieldRule::Str(v.clone());
+            }
+        }
+        FieldRule::Default
+    };
+    if !case.overrides.is_empty() {
+        gi.rule = Some(&rule_in);
+    }
     let Some(input) = gen_input(&case.op, &mut gi) else { return };
     // the scripted output
     let mut g = gen_for(seed, presence_from(&case.presence));
@@ -179,6 +203,18 @@ pub fn judge_looped(rt: &tokio::runtime::Runtime, r: &mut Report, case: &LCase) 
                     _ => true,
                 }
             });
+            // GetObject: a response-* override of the request, or an extra header of the backend under the member's own
+            // header name, decides what the client sees for that member; what the statement asks for there - the backend's
+            // extra header arrives - is judged on the wire above
+            if case.op == "GetObject" {
+                diffs.retain(|m| {
+                    let touched = OVERRIDES.iter().any(|(im, om, h)| om == m && (case.overrides.iter().any(|(x, _)| x == im) || case.extra_headers.iter().any(|(k, _)| k.eq_ignore_ascii_case(h))));
+                    if touched {
+                        r.count("getobject_members_decided_by_override_or_extra_header", 1);
+                    }
+                    !touched
+                });
+            }
             // CompleteMultipartUpload: header-bound members travel as HTTP trailers, which the SDK does
             // not surface; they are checked on the raw response by the keep-alive part
             if case.op == "CompleteMultipartUpload" {
@@ -420,7 +456,7 @@ pub fn run(ctx: &RunCtx) -> i32 {
                 continue;
             }
             for rep in 0..sys_reps {
-                let case = LCase { op: op.into(), cfg: if (mi_idx as u64 + rep) % 2 == 0 { cfg0.clone() } else { cfg1.clone() }, seed: derive_seed(ctx.seed, op, 0x3030_0000 + mi_idx as u64 + (rep << 20)).to_string(), presence: "minimal".into(), focus: Some(mi.rust.to_owned()), status_override: None, extra_headers: vec![] };
+                let case = LCase { op: op.into(), cfg: if (mi_idx as u64 + rep) % 2 == 0 { cfg0.clone() } else { cfg1.clone() }, seed: derive_seed(ctx.seed, op, 0x3030_0000 + mi_idx as u64 + (rep << 20)).to_string(), presence: "minimal".into(), focus: Some(mi.rust.to_owned()), status_override: None, extra_headers: vec![], overrides: vec![] };
                 judge_looped(&rt, r, &case);
             }
         }
@@ -444,7 +480,21 @@ pub fn run(ctx: &RunCtx) -> i32 {
             } else {
                 vec![]
             };
-            let case = LCase { op: op.into(), cfg, seed: derive_seed(ctx.seed, op, i).to_string(), presence: presence.into(), focus: None, status_override, extra_headers };
+            // GetObject: response-* overrides in the request, and extra headers of the backend under the very names
+            // those overrides (and the output's own members) use
+            let mut extra_headers = extra_headers;
+            let mut overrides = Vec::new();
+            if op == "GetObject" && one_hop && i % 2 == 0 {
+                for (im, _, h) in OVERRIDES {
+                    if g.chance(1, 2) {
+                        overrides.push(((*im).to_owned(), if *h == "content-type" { "text/x-verif".to_owned() } else { format!("ov-{}", g.alnum(5)) }));
+                    }
+                    if g.chance(1, 3) {
+                        extra_headers.push(((*h).to_owned(), if *h == "content-type" { "application/x-verif-backend".to_owned() } else { format!("be-{}", g.alnum(5)) }));
+                    }
+                }
+            }
+            let case = LCase { op: op.into(), cfg, seed: derive_seed(ctx.seed, op, i).to_string(), presence: presence.into(), focus: None, status_override, extra_headers, overrides };
             judge_looped(&rt, r, &case);
         }
     });
